@@ -84,9 +84,6 @@ def finish(ctx: Ctx, started: float, stats: dict[str, int], *, seed: int = 0, em
     """Match violations against known findings, write evidence/out files, print verdict lines; return exit code."""
     from sa.srcmodel import AnalysisError
 
-    for rule, got, minimum in ctx.minimums:
-        if got < minimum:
-            raise AnalysisError(f"{ctx.prop}-{rule}: only {got} instances found, hand-confirmed minimum is {minimum}")
     known = [k for k in load_known() if k.prop == ctx.prop]
     open_known = {(k.rule, k.key): k for k in known if k.status == "open"}
     failed = [o for o in ctx.obligations if not o.ok]
@@ -99,6 +96,11 @@ def finish(ctx: Ctx, started: float, stats: dict[str, int], *, seed: int = 0, em
         else:
             new.append(o)
     stale = [k for k in open_known.values() if not any(k is kk for _, kk in hit_known)]
+    if not new:
+        # instance-count floors: a rule that lost its subjects must not pass vacuously (a definite violation wins over this)
+        for rule, got, minimum in ctx.minimums:
+            if got < minimum:
+                raise AnalysisError(f"{ctx.prop}-{rule}: only {got} instances found, hand-confirmed minimum is {minimum}")
 
     lines: list[str] = []
     for o, k in hit_known:
